@@ -1642,9 +1642,20 @@ package gocql
 
 //@ func marshalTimestamp
 //@   props C12 C02
-//@   scenario value: int64
+//@   scenario value: int64 | time.Time
 //@   requires info != nil
-//@   ensures result1 == nil && len(result0) == 8 && be64(result0, 0) == uint64(unbox(value, int64))
+//@   ensures[@int64] result1 == nil && len(result0) == 8 && be64(result0, 0) == uint64(unbox(value, int64))
+// a time.Time is its milliseconds since the epoch: whole seconds * 1000 + the milliseconds of the second
+// (exact for every instant a time.Time can hold - not through UnixNano, which is undefined outside 1678..2262);
+// the zero time is the empty value
+//@   ensures[@Time] result1 == nil && (time_iszero(unbox(value, time.Time)) ==> len(result0) == 0)
+//@   ensures[@Time] !time_iszero(unbox(value, time.Time)) ==> len(result0) == 8 && be64(result0, 0) == uint64(time_unix(unbox(value, time.Time))*1000 + int64(time_nsec(unbox(value, time.Time))/1000000))
+
+// null is the absent value (length -1 on the wire, a nil slice here); a value of length 0 is not null
+//@ func isNullData
+//@   props C02
+//@   modifies nothing
+//@   ensures result == (data == nil)
 
 // vint: size and value (Cassandra VIntCoding), zig-zag for signed values
 //@ func encVint
